@@ -5,7 +5,7 @@ import itertools
 from hypothesis import strategies as st
 
 from .. import gen, oracle
-from ..runner import CaseResult, explore, shrink
+from ..runner import CaseResult, case_key, explore, shrink
 
 ID = "C07"
 LEVEL = "exploration"
@@ -15,7 +15,10 @@ RULE = ("Domain A: molecules/mixtures (size-sorted corpus molecules enumerated i
         "elements and >=1 implicit hydrogen, or a charged/isotopic/Z>86 species. Domain B: reactions from those "
         "molecules, carbon label / is_carbon_balanced vs oracle carbon counts; non-trivial = both sides contain "
         "carbon. Domain C: all ordered pairs of composition dicts over 3 keys x counts 0..2 x charge "
-        "{absent,-2,-1,1,2} (exhaustive; the decomposer never stores a zero charge or a zero count) plus random larger vectors; non-trivial = unequal vectors. Distinct = "
+        "{absent,-2,-1,1,2} (exhaustive; the decomposer never stores a zero charge or a zero count) plus random larger vectors; non-trivial = unequal vectors. "
+        "Domain D: batches of 1-6 reactions (ionic sides enriched, components recurring across the batch) through the "
+        "pipeline's batch entry point RSMIDecomposer(data=list|DataFrame, parallel in {False, True}).data_decomposer(), "
+        "every side against the oracle; non-trivial = side with a net charge. Distinct = "
         "distinct case content (sha1 of the JSON case).")
 ASSUMPTIONS = [
     "RDKit parser/sanitiser, periodic table and CalcMolFormula (start-up cross-check of the oracle) are trusted",
@@ -204,6 +207,49 @@ def reaction_check(rxn):
     return r
 
 
+def batch_check(case):
+    """the batch entry point used by the pipeline (RSMIDecomposer(data=...).data_decomposer()): every side of every
+    reaction of the batch against the oracle, list-of-dicts and DataFrame input, sequential and joblib"""
+    from synrbl.SynProcessor import RSMIDecomposer
+    r = CaseResult()
+    rows = []
+    for rx in case["batch"]:
+        sp = oracle.split_reaction(rx)
+        if sp is None or not sp[0] or not sp[1] or expected_dict(sp[0]) is None or expected_dict(sp[1]) is None:
+            continue
+        rows.append({"reactants": sp[0], "products": sp[1]})
+    if not rows:
+        r.inconclusive = "no parsable reaction in batch"
+        return r
+    data = rows
+    if case.get("frame"):
+        import pandas as pd
+        data = pd.DataFrame(rows)
+    try:
+        ra, pa = RSMIDecomposer(smiles=None, data=data, reactant_col="reactants", product_col="products",
+                                parallel=bool(case.get("parallel")), n_jobs=2, verbose=0).data_decomposer()
+    except Exception as e:
+        r.fail("batch-decompose-raises:" + type(e).__name__, "composition", batch=case["batch"], error=str(e)[:200])
+        return r
+    r.evals = 2 * len(rows)
+    if len(ra) != len(rows) or len(pa) != len(rows):
+        r.fail("batch-length", "one composition per side", n=len(rows), got=[len(ra), len(pa)], batch=case["batch"])
+        return r
+    for i, row in enumerate(rows):
+        for side, got in (("reactants", ra[i]), ("products", pa[i])):
+            exp = expected_dict(row[side])
+            if dict(got) != exp:
+                r.fail("batch-composition-differs", "composition", index=i, side=side, smiles=row[side],
+                       got=dict(got), expected=exp, frame=bool(case.get("frame")), parallel=bool(case.get("parallel")))
+            if "Q" in exp:
+                r.tag("batch-side-charged:" + ("-" if exp["Q"] < 0 else "+"))
+                r.nt_keys.append(case_key(row[side]))
+    if len(set(m for row in rows for m in (row["reactants"] + "." + row["products"]).split("."))) < \
+            sum(len((row["reactants"] + "." + row["products"]).split(".")) for row in rows):
+        r.tag("batch-repeats-a-component")
+    return r
+
+
 # --------------------------------------------------------------------- shards
 
 def shards(tier):
@@ -221,6 +267,8 @@ def shards(tier):
         out.append({"name": "hyp-carbon:%d" % i, "kind": "hyp-carbon", "examples": 400 if q else 3000})
     for i in range(2 if q else 4):
         out.append({"name": "hyp-compare:%d" % i, "kind": "hyp-cmp", "examples": 2000 if q else 20000})
+    for i in range(2 if q else 4):
+        out.append({"name": "hyp-batch:%d" % i, "kind": "hyp-batch", "examples": 250 if q else 2500})
     if not q:
         out.append({"name": "corpus-reactions", "kind": "corpus-rxn"})
     return out
@@ -249,6 +297,14 @@ def strategy(spec):
         side = st.lists(mol, min_size=1, max_size=3).map(".".join)
         return st.one_of(st.tuples(side, side).map(lambda t: t[0] + ">>" + t[1]),
                          gen.any_reaction().map(lambda t: t[0]))
+    if k == "hyp-batch":
+        mol = gen.molecule(closed_shell=True, max_heavy=40, periodic=True)
+        ion = st.sampled_from(["[OH-]", "[Na+]", "[Cl-]", "CC(=O)[O-]", "[NH4+]", "[O-]C([O-])=O", "[Ca+2]", "C[N+](C)(C)C",
+                               "[O-]S([O-])(=O)=O", "[H+]", "[Br-]", "CC[O-]", "[K+]", "[N-]=[N+]=[N-]"])
+        side = st.lists(st.one_of(mol, mol, ion), min_size=1, max_size=4).map(".".join)
+        rx = st.one_of(st.tuples(side, side).map(lambda t: t[0] + ">>" + t[1]), gen.any_reaction().map(lambda t: t[0]))
+        return st.fixed_dictionaries({"batch": st.lists(rx, min_size=1, max_size=6), "frame": st.booleans(),
+                                      "parallel": st.integers(0, 4).map(lambda x: x == 0)})
     if k == "hyp-cmp":
         base = _dict_strategy()
         # correlated pairs: second dict is a small perturbation of the first half of the time
@@ -282,6 +338,8 @@ def check_case(case, spec):
         return r
     if k in ("hyp-cmp", "cmp-exh"):
         return check_compare(case[0], case[1])
+    if k == "hyp-batch":
+        return batch_check(case)
     raise ValueError(k)
 
 
@@ -346,7 +404,7 @@ def shrink_shard(spec, seed, tier, bucket, index, cap_s):
 def replay(case, spec):
     kind = spec.get("kind")
     if kind is None:
-        kind = "hyp-cmp" if isinstance(case, list) and case and isinstance(case[0], dict) else (
+        kind = "hyp-batch" if isinstance(case, dict) and "batch" in case else "hyp-cmp" if isinstance(case, list) and case and isinstance(case[0], dict) else (
             "hyp-carbon" if isinstance(case, str) else "hyp-mix")
     return check_case(case, dict(spec, kind=kind)).failures
 
